@@ -940,6 +940,21 @@ func (t *Table) Reduce(cfg SortConfig, aaps []AliasAccPair) error {
 		}
 		return res.String()
 	}
+	// The sort order is total only among values of the same kind (rowLess
+	// treats values of different kinds as equal), so the rows of one group may
+	// not be contiguous yet when kinds are mixed in a grouping column.
+	groups, order := make(map[string][]Row), []string{}
+	for _, r := range t.Data {
+		k := id(r)
+		if _, ok := groups[k]; !ok {
+			order = append(order, k)
+		}
+		groups[k] = append(groups[k], r)
+	}
+	t.Data = t.Data[:0]
+	for _, k := range order {
+		t.Data = append(t.Data, groups[k]...)
+	}
 	for idx, r := range t.Data {
 		current = id(r)
 		// First time.
